@@ -24,6 +24,17 @@ LeafCases ==
   {Desc("leaf", l, ln, e.name, s) : l \in Locs, ln \in DOMAIN Leaves, e \in Edits, s \in BOOLEAN}
 LeafCaseOK(c) == c.leaf \in EditByName(c.edit).on /\ LocOK(c.loc, c.leaf)
 
+\* two simultaneous edits of different keywords on one leaf (sites that cooperate, e.g. an exclusive
+\* flag and the bound it qualifies), at one parameter and one body location
+Pairs2 == {p \in (DOMAIN Leaves) \X (DOMAIN EditSeq) \X (DOMAIN EditSeq) :
+             /\ p[2] < p[3]
+             /\ EditSeq[p[2]].k \notin {"type", "format"} /\ EditSeq[p[3]].k \notin {"type", "format"}
+             /\ p[1] \in EditSeq[p[2]].on /\ p[1] \in EditSeq[p[3]].on
+             /\ <<EditSeq[p[2]].k, EditSeq[p[2]].items>> # <<EditSeq[p[3]].k, EditSeq[p[3]].items>>}
+Name2(p) == EditSeq[p[2]].name \o "+" \o EditSeq[p[3]].name
+Leaf2Cases == {Desc("leaf2", l, p[1], Name2(p), s) : l \in {"query", "body_prop"}, p \in Pairs2, s \in BOOLEAN}
+Edit2(c) == LET p == CHOOSE q \in Pairs2 : q[1] = c.leaf /\ Name2(q) = c.edit IN <<EditSeq[p[2]], EditSeq[p[3]]>>
+
 StructLeaves == {"INT", "STRPLAIN", "ARR"}
 StructCases ==
   {Desc("required", l, ln, "-", s) : l \in Locs \ {"path", "body_root", "body_items"}, ln \in StructLeaves, s \in BOOLEAN}
@@ -42,7 +53,7 @@ MetaEdits == {"op_desc_added", "op_desc_changed", "param_desc_added", "param_des
               "header_type_changed", "param_type_and_default"}
 MetaCases == {Desc("meta", "-", "-", e, s) : e \in MetaEdits, s \in BOOLEAN}
 
-CaseSpace == {c \in LeafCases : LeafCaseOK(c)} \cup StructCases \cup MetaCases
+CaseSpace == {c \in LeafCases : LeafCaseOK(c)} \cup Leaf2Cases \cup StructCases \cup MetaCases
 
 RespAOS(props, hdrs, codes) ==
   [BaseAOS EXCEPT !.responses =
@@ -100,6 +111,10 @@ Pair(c) ==
   LET leaf == IF c.leaf = "-" THEN [type |-> "string"] ELSE Leaves[c.leaf] IN
   CASE c.kind = "leaf" ->
          LET nl == ApplyEdit(leaf, EditByName(c.edit)) IN
+         [A |-> Embed(c.loc, leaf, TRUE, "csv"), B |-> Embed(c.loc, nl, TRUE, "csv"),
+          reqs |-> Requests(c.loc, leaf, nl, "csv")]
+    [] c.kind = "leaf2" ->
+         LET nl == ApplyEdit(ApplyEdit(leaf, Edit2(c)[1]), Edit2(c)[2]) IN
          [A |-> Embed(c.loc, leaf, TRUE, "csv"), B |-> Embed(c.loc, nl, TRUE, "csv"),
           reqs |-> Requests(c.loc, leaf, nl, "csv")]
     [] c.kind = "required" ->
